@@ -265,8 +265,14 @@ void killMap(int ID, MidiMapperStorage &m)
 
 void MidiMappernRT::useFreeID(int ID)
 {
-    if(learnQueue.empty())
+    if(learnQueue.empty()) {
+        //nobody waits for a controller (any more): the realtime side must
+        //not keep this one parked as reported
+        char buf[64];
+        rtosc_message(buf, 64, "/midi-learn/midi-unuse-CC", "i", ID);
+        rt_cb(buf);
         return;
+    }
     //a controller that is bound already is not free (its report was late)
     if(storage)
         for(int i=0; i<storage->mapping.size(); ++i)
@@ -361,9 +367,14 @@ void MidiMappernRT::replaceMapping(int, bool, const char *){};
 void MidiMappernRT::clear(void)
 {
     storage = new MidiMapperStorage();
+    char buf[1024];
+    //the dropped requests give their watches back
+    for(size_t i=0; i<learnQueue.size(); ++i) {
+        rtosc_message(buf, 1024, "/midi-learn/midi-remove-watch","");
+        rt_cb(buf);
+    }
     learnQueue.clear();
     inv_map.clear();
-    char buf[1024];
     rtosc_message(buf, 1024, "/midi-learn/midi-bind", "b", sizeof(storage), &storage);
     rt_cb(buf);
 }
@@ -599,6 +610,10 @@ const rtosc::Ports MidiMapperRT::ports = {
         {
             auto midi = (MidiMapperRT*)d.obj;
             midi->remWatch();}},
+    {"midi-unuse-CC:i","",0, [](msg_t msg, RtData&d)
+        {
+            auto midi = (MidiMapperRT*)d.obj;
+            midi->pending.remove(rtosc_argument(msg,0).i);}},
     {"midi-bind:b","",0, [](msg_t msg, RtData&d)
         {
             auto &midi = *(MidiMapperRT*)d.obj;
